@@ -1,4 +1,5 @@
 import ArgoVerif.Props.SchedCommon
+import ArgoVerif.Gen.Consts
 import ArgoVerif.Props.C06Stop
 /-
 Props.C06 — stream join/free and ABT_finalize wait for all work: the per-pool count of blocked units that drives the
@@ -80,5 +81,14 @@ example :
        .setSt 1 .blocked, .resume 1, .setSt 1 .ready, .push 0 1, .pop 7 0 1, .setSt 1 .running, .run 7 1,
        .cb 7 1 .suspend, .incB 1 0]).map (fun s => decide (s.nb 0 = 2 ∧ s.lag 1 = 1))
       = some true := by decide
+
+
+/-! ## widths of the counters modelled as unbounded numbers (generated from the headers on every run) -/
+/-- `num_blocked`: Model.Sched / Model.Stop use Int / Nat is 4 bytes wide in this tree: the unbounded model agrees with the C field below 2^31 -/
+example : ArgoVerif.Gen.Consts.bytesPoolNumBlocked = 4 := by decide
+/-- `num_scheds` is 4 bytes wide in this tree: the unbounded model agrees with the C field below 2^31 -/
+example : ArgoVerif.Gen.Consts.bytesPoolNumScheds = 4 := by decide
+/-- the scheduler request word is 4 bytes wide in this tree: the unbounded model agrees with the C field below 2^31 -/
+example : ArgoVerif.Gen.Consts.bytesSchedRequest = 4 := by decide
 
 end ArgoVerif.Props.C06
